@@ -13,5 +13,5 @@ git -C "$W" apply "$S/patch.diff" || { echo "patch does not apply"; exit 2; }
 mkdir -p "$W.out"
 for id in "$@"; do
   echo "== $name vs $id"
-  VERIF_REPO="$W" VERIF_EVIDENCE_DIR="$W.out" VERIF_REPLAY_DIR="$W.out" ./check "$id" --tier "${TIER:-quick}" 2>&1 | grep -E "^(VIOLATION|KNOWN|C[0-9]+ tier)" | head -6 | sed "s#$W.out#<scratch>#"
+  VERIF_REPO="$W" VERIF_EVIDENCE_DIR="$W.out" VERIF_REPLAY_DIR="$W.out" ./check "$id" --tier "${TIER:-quick}" 2>&1 | grep -E "^(VIOLATION|violation|KNOWN|C[0-9]+ tier)" | cut -c1-220 | head -12 | sed "s#$W.out#<scratch>#"
 done
